@@ -327,7 +327,18 @@ func randTy(r *rand.Rand, structs []string, self int, depth int) TyJ {
 	case x < 10:
 		return TyJ{T: tSET, A: []TyJ{randTy(r, structs, self, depth+1)}}
 	case x < 11:
-		kt := []byte{tSTR, tI32, tI64, tI16, tI8, tDBL}[r.Intn(6)]
+		kt := []byte{tSTR, tI32, tI64, tI16, tI8, tDBL, tSTRUCT}[r.Intn(7)]
+		if kt == tSTRUCT && self+1 < len(structs) {
+			// struct-keyed map; the value type is often a builtin (shared descriptor on both sides)
+			key := TyJ{T: tSTRUCT, N: structs[self+1+r.Intn(len(structs)-self-1)], A: []TyJ{}}
+			val := TyJ{T: int(scalarKinds[r.Intn(len(scalarKinds))]), A: []TyJ{}}
+			if r.Intn(3) == 0 {
+				val = randTy(r, structs, self, depth+1)
+			}
+			return TyJ{T: tMAP, A: []TyJ{key, val}}
+		} else if kt == tSTRUCT {
+			kt = tSTR
+		}
 		return TyJ{T: tMAP, A: []TyJ{{T: int(kt), A: []TyJ{}}, randTy(r, structs, self, depth+1)}}
 	default:
 		if self >= 0 && self < len(structs) && r.Intn(2) == 0 {
@@ -390,7 +401,12 @@ func randConforming(r *rand.Rand, t TyJ, d DescJ, depth int) *Val {
 		}
 		seen := map[string]bool{}
 		for i := 0; i < n; i++ {
-			k := randScalar(r, byte(t.A[0].T), cfg)
+			var k *Val
+			if t.A[0].T == tSTRUCT {
+				k = randConforming(r, t.A[0], d, depth+1)
+			} else {
+				k = randScalar(r, byte(t.A[0].T), cfg)
+			}
 			if seen[keyIdent(k)] {
 				continue
 			}
